@@ -11,7 +11,7 @@ import (
 
 // C17: UnAckQueue vs Model/Queue.v
 type qOp struct {
-	Op string `json:"op"` // push pushshared pushpeek pop popn peek peekn empty
+	Op string `json:"op"` // push pushshared pushpeek pop popn peek peekn empty droplast
 	S  string `json:"s,omitempty"`
 	K  int    `json:"k,omitempty"`
 }
@@ -28,7 +28,7 @@ func (c17) ID() string    { return "C17" }
 func (c17) RunFn() string { return "run_C17" }
 func (c17) Workers() int  { return 8 }
 func (c17) Rule() string {
-	return "random histories (0-60 ops) over push/pop/popn k/peek/peekn k/empty, k in {-3..len+3} plus extreme values, payloads from a small pool; one push in three re-uses a caller-owned *UnAckedStz that is overwritten after the push, or re-queues the current head (q.Push(q.Peek())); distinct = distinct op-kind/k-class sequence; non-trivial = at least one pop or peek on a non-empty queue and at least 3 ops"
+	return "random histories (0-60 ops) over push/pop/popn k/peek/peekn k/empty and DropLast (right after a push as Client.writeHeld calls it, twice in a row, after pops, on an empty queue), k in {-3..len+3} plus extreme values, payloads from a small pool; one push in three re-uses a caller-owned *UnAckedStz that is overwritten after the push, or re-queues the current head (q.Push(q.Peek())); distinct = distinct op-kind/k-class sequence; non-trivial = at least one pop or peek on a non-empty queue and at least 3 ops"
 }
 
 func (c17) Gen(r *rand.Rand, tier string) []interface{} {
@@ -40,15 +40,26 @@ func (c17) Gen(r *rand.Rand, tier string) []interface{} {
 	// fixed corner histories first
 	out = append(out, c17In{Ops: []qOp{}},
 		c17In{Ops: []qOp{{Op: "pop"}, {Op: "popn", K: 3}, {Op: "peek"}, {Op: "peekn", K: 2}, {Op: "empty"}}},
-		c17In{Nil: true, Ops: []qOp{{Op: "push", S: "x"}, {Op: "pop"}, {Op: "popn", K: 1}, {Op: "peek"}, {Op: "peekn", K: 1}, {Op: "empty"}}})
+		c17In{Nil: true, Ops: []qOp{{Op: "push", S: "x"}, {Op: "pop"}, {Op: "popn", K: 1}, {Op: "peek"}, {Op: "peekn", K: 1}, {Op: "empty"}, {Op: "droplast"}}},
+		// DropLast: the number of the entry taken back is used again; twice in a row; on an empty queue; after the queue was emptied by pops
+		c17In{Ops: []qOp{{Op: "droplast"}, {Op: "push", S: "a"}, {Op: "push", S: "b"}, {Op: "droplast"}, {Op: "push", S: "c"}, {Op: "droplast"}, {Op: "droplast"}, {Op: "droplast"}, {Op: "push", S: "d"}}},
+		c17In{Ops: []qOp{{Op: "push", S: "a"}, {Op: "push", S: "b"}, {Op: "popn", K: 2}, {Op: "droplast"}, {Op: "push", S: "c"}, {Op: "pop"}, {Op: "push", S: "d"}, {Op: "droplast"}, {Op: "push", S: "e"}, {Op: "peekn", K: 5}}})
 	pool := []string{"", "a", "<iq id='1'/>", "<message>é</message>", "x\x00y", strings.Repeat("z", 70)}
 	for i := 0; i < n; i++ {
 		l := r.Intn(61)
 		ops := make([]qOp, 0, l)
 		size := 0
 		pushBias := 2 + r.Intn(5)
+		drops := r.Intn(3) // 0: a history without DropLast; 1: now and then; 2: often
 		for j := 0; j < l; j++ {
 			var o qOp
+			if drops > 0 && r.Intn(18/drops) == 0 {
+				ops = append(ops, qOp{Op: "droplast"})
+				if size > 0 {
+					size--
+				}
+				continue
+			}
 			switch c := r.Intn(10); {
 			case c < pushBias:
 				switch k := r.Intn(6); {
@@ -177,6 +188,9 @@ func (c17) Run(inp interface{}) Sx {
 			r = queueablesSx(q.PeekN(o.K))
 		case "empty":
 			r = L(Z(3), B(q.Empty()))
+		case "droplast":
+			q.DropLast()
+			r = L()
 		}
 		var es []Sx
 		if q != nil {
@@ -222,6 +236,10 @@ func c17Normalise(ops []qOp) []qOp {
 			ref = ref[take(1):]
 		case "popn":
 			ref = ref[take(o.K):]
+		case "droplast":
+			if len(ref) > 0 {
+				ref = ref[:len(ref)-1]
+			}
 		}
 		out = append(out, o)
 	}
@@ -246,6 +264,8 @@ func (c17) Input(inp interface{}) Sx {
 			items[i] = L(Z(4), Zi(o.K))
 		case "empty":
 			items[i] = L(Z(5))
+		case "droplast":
+			items[i] = L(Z(6))
 		}
 	}
 	return L(B(in.Nil), LS(items))
@@ -263,6 +283,7 @@ func (c17) Oracle(inp interface{}, obs Sx) (string, string) {
 		s  string
 	}
 	var ref []string
+	popped := 0 // entries that left at the head: ref[j] is entry number popped+j+1 of the log of payloads pushed and not taken back
 	entries := func(x Sx) []ent {
 		var r []ent
 		for _, e := range x.L {
@@ -297,6 +318,12 @@ func (c17) Oracle(inp interface{}, obs Sx) (string, string) {
 		case "pop":
 			if len(ref) > 0 {
 				want, kind, ref = ref[:1], 1, ref[1:]
+				popped++
+			}
+		case "droplast":
+			// the newest entry is taken back, with its number
+			if len(ref) > 0 {
+				ref = ref[:len(ref)-1]
 			}
 		case "peek":
 			if len(ref) > 0 {
@@ -306,6 +333,7 @@ func (c17) Oracle(inp interface{}, obs Sx) (string, string) {
 			n := take(o.K)
 			if n > 0 {
 				want, kind, ref = ref[:n], 2, ref[n:]
+				popped += n
 			}
 		case "peekn":
 			n := take(o.K)
@@ -354,6 +382,9 @@ func (c17) Oracle(inp interface{}, obs Sx) (string, string) {
 			if j > 0 && after[j].id <= after[j-1].id {
 				return fmt.Sprintf("step %d (%s): ids not strictly increasing", i, o.Op), "ids-" + o.Op
 			}
+			if after[j].id != int64(popped+j+1) {
+				return fmt.Sprintf("step %d (%s): entry %d carries sequence number %d; it is number %d among the payloads pushed and not taken back", i, o.Op, j, after[j].id, popped+j+1), "ids-position-" + o.Op
+			}
 		}
 		if (o.Op == "peek" || o.Op == "peekn" || o.Op == "empty") && len(before) != len(after) {
 			return fmt.Sprintf("step %d: %s modified the queue", i, o.Op), "peek-modifies"
@@ -385,6 +416,11 @@ func (c17) Key(inp interface{}) (string, bool) {
 		case "peek":
 			if size > 0 {
 				hit = true
+			}
+		case "droplast":
+			if size > 0 {
+				size--
+				cls = "+"
 			}
 		case "popn", "peekn":
 			switch {
